@@ -236,6 +236,13 @@ def consensus(
         super_reads[1].append(
             Variant(pos, allele=id_to_allele[pos][1 - best_allele], quality=score)
         )
+    # Keep the phase of variants that are already phased in the input but received no votes
+    # (the VCF writer removes the existing phasing of every record before it adds the new one)
+    for pos, phase in phased.items():
+        if phase is not None and pos not in votes and len(phase.phase) == 2:
+            components[pos] = phase.block_id - 1
+            for read, allele in zip(super_reads, phase.phase):
+                read.append(Variant(pos, allele=allele, quality=phase.quality or 0))
     for read in super_reads:
         read.sort(key=lambda x: x.position)
     return super_reads, components
